@@ -134,7 +134,17 @@ func traceDiff(s *OkSample, t *nativeTrace) string {
 		return "no native trace"
 	}
 	var d []string
+	// labels starting with "~" are assertions over details an environment stub abstracts
+	// away (e.g. attributes written by encoding/xml's reflection): they run natively only
+	for l := range t.Asserts {
+		if strings.HasPrefix(l, "~") {
+			delete(t.Asserts, l)
+		}
+	}
 	for l, n := range s.Asserts {
+		if strings.HasPrefix(l, "~") {
+			continue
+		}
 		if t.Asserts[l] != n {
 			d = append(d, fmt.Sprintf("assert %s: executor %d, native %d", l, n, t.Asserts[l]))
 		}
